@@ -372,6 +372,20 @@ fn needs_globbing(line: &str) -> bool {
     re.is_match(line)
 }
 
+/// A `*` never matches the leading dot of a directory name either: true when a
+/// directory component of `path` begins with a dot while the component of
+/// `pattern` at the same distance from the end does not.
+fn hidden_dir_matched(pattern: &str, path: &str) -> bool {
+    let mut pat = pattern.rsplit('/').skip(1);
+    for comp in path.rsplit('/').skip(1) {
+        let p = pat.next().unwrap_or("");
+        if comp.starts_with('.') && comp != "." && comp != ".." && !p.starts_with('.') {
+            return true;
+        }
+    }
+    false
+}
+
 pub fn expand_glob(tokens: &mut types::Tokens) {
     let mut idx: usize = 0;
     let mut buff = Vec::new();
@@ -399,6 +413,9 @@ pub fn expand_glob(tokens: &mut types::Tokens) {
                                 let file_path = path.to_string_lossy();
                                 let _basename = libs::path::basename(&file_path);
                                 if _basename == ".." || _basename == "." {
+                                    continue;
+                                }
+                                if hidden_dir_matched(item, &file_path) {
                                     continue;
                                 }
                                 if _basename.starts_with('.') && !show_hidden {
